@@ -184,7 +184,8 @@ CarrierOf(k) == IF k = 1 THEN "hdr" ELSE "qry"
 RichL(carrier) ==
     LET L1 == [Bundle0(carrier).L EXCEPT !.method = B("POST"), !.path = B("/a%20b/c"), !.query = B("b=2&a=%20x&a=0&m=dGVzdA==&f=c=d"),
                                         !.hdrs = @ \o << <<B("X-Amz-Meta"), B("a  b")>>, <<B("My-Header1"), B("v1")>>,
-                                                        <<B("my-header1"), B("v2")>>, <<B("Unsigned"), B("u")>> >>,
+                                                        <<B("my-header1"), <<>> >>, <<B("my-header1"), B("v2")>>,
+                                                        <<B("Unsigned"), B("u")>> >>,
                                         !.body = B("hello"), !.hasToken = TRUE, !.token = TokenV]
     IN [L1 EXCEPT !.signed = SelectSeq(SignAll(L1), LAMBDA n : n # B("unsigned"))]
 RichB(carrier) == [Bundle0(carrier) EXCEPT !.L = RichL(carrier)]
@@ -540,7 +541,8 @@ Dim(k) ==
                                     [] OTHER -> <<2, 43, 43, Len(ContentTypes), 2, 1, 2>>, k)
       [] Family = "dup"      -> V(<<Len(DupCases)>>, k)
       [] Family = "logical"  -> V(<<Len(Logical)>>, k)
-      [] Family = "ct"       -> V(<<IF Bound = 0 THEN 1 ELSE 3, IF Bound = 0 THEN 1 ELSE 2, Len(CtPositions)>>, k)
+      \* request, key, position, variant (1 plain lower-case guess, 2 upper-case guess, 3 logger enabled at Trace level)
+      [] Family = "ct"       -> V(<<IF Bound = 0 THEN 1 ELSE 3, IF Bound = 0 THEN 1 ELSE 2, Len(CtPositions), 3>>, k)
       [] Family = "charsets" -> V(<<Len(CharsetLabels), IF Bound = 0 THEN 3 ELSE Len(CharsetBodies), 2>>, k)
       [] Family = "degenerate" -> V(<<Len(Degenerate), 2>>, k)
       [] Family = "passthru" -> V(<<2, Len(Methods), Len(Versions), Len(HdrSets), 3, 2>>, k)
@@ -686,7 +688,7 @@ BundleOf ==
                 sec == IF idx[2] = 1 THEN Secret1 ELSE Secret2
                 p   == CtPositions[idx[3]]
             IN [b0 EXCEPT !.script.secret = sec, !.signSecret = sec,
-                          !.sigmut = [kind |-> "flip", pos |-> IF p < 0 THEN 0 ELSE p]]
+                          !.sigmut = [kind |-> IF idx[4] = 2 THEN "upperflip" ELSE "flip", pos |-> IF p < 0 THEN 0 ELSE p]]
       [] Family = "charsets" ->
             LET b  == Bundle0("hdr")
                 lab == IF idx[3] = 1 THEN CharsetLabels[idx[1]] ELSE UpperSeq(CharsetLabels[idx[1]])
@@ -705,9 +707,9 @@ BundleOf ==
 
 Case == CaseOfBundle(BundleOf, <<Family>> \o idx)
         @@ (IF Family = "ct"
-            THEN [group |-> <<idx[1], idx[2]>>,
+            THEN [group |-> <<idx[1], idx[2], idx[4]>>, tracelog |-> idx[4] = 3,
                   who |-> IF idx[3] = 1 THEN "ref" ELSE IF CtPositions[idx[3]] < 0 THEN "control-0" ELSE "p" \o ToString(CtPositions[idx[3]])]
-            ELSE [group |-> 0, who |-> ""])
+            ELSE [group |-> 0, who |-> "", tracelog |-> FALSE])
 
 \* abstract/concrete consistency: the earliest injected defect is the rule the byte-level reading reports
 \* (rule 16 is not a structural rule; 0 = none)
